@@ -1,5 +1,6 @@
 import Bec2Verif.Lemmas.Bec2
 import Bec2Verif.Props.C01
+import Bec2Verif.Props.C16
 /-!
 # C02 — BEC2 write-then-read recovers key, auth blocks and content for every key
 
@@ -62,6 +63,18 @@ theorem bec2_read_write_plain (env : Env) (hC : CryptoInv env.C) (hE : EccLaws e
 theorem adapter_instance (B : BlockCipher) (hB : BlockInv B) :
     CryptoInv (Adapter.crypto B) ∧ MacLen (Adapter.crypto B) :=
   ⟨adapter_cryptoInv B hB, adapter_macLen B hB.encLen⟩
+
+/-- the file theorem for the bundled AES plug-in: no hypothesis about the cipher is left (C16 `aes_plugin_instance`);
+`EccLaws` remains for the ECC blocks -/
+theorem bec2_read_write_aes (E : Ecc) (hE : EccLaws E) (sha : Bytes → Bytes)
+    (f : File) (ext : List Encryptor) (ephs ephs' : List Nat) (out : Bytes) (chk : Bool)
+    (hsk : f.key.length = 16) (hne : f.blocks ≠ []) (hopen : ∀ b ∈ f.blocks, Opens ext b)
+    (hnd : (f.blocks.map AuthBlock.tag).Nodup) (hok : ∀ c ∈ f.comps, CompOK aesCrypto f.key c)
+    (h : Bec2.toBinary { C := aesCrypto, E := E, sha := sha } f ext ephs = .ok (out, ephs')) :
+    Bec2.readBinary { C := aesCrypto, E := E, sha := sha } ext chk out =
+      (readBackAll aesCrypto f.key f.comps).map (fun cs => { comps := cs, blocks := f.blocks, key := f.key }) :=
+  bec2_read_write { C := aesCrypto, E := E, sha := sha } Props.C16.aes_plugin_instance.1 hE
+    Props.C16.aes_plugin_instance.2 f ext ephs ephs' out chk hsk hne hopen hnd hok h
 
 /-- non-vacuity: a decryptor list that opens a customer-key, an ECC (selector 2) and an update block -/
 example : ∀ b ∈ [AuthBlock.initCust, .initEcc 2, .update [1,2,3,4,5,6,7,8] 255],
